@@ -36,6 +36,23 @@ int main(int argc, char** argv) {
             // a competitor point x (hypothesis of the spec: it lies on the surface, f_x = 0)
             Vec3 x = inV3("x", Vec3(-0.25, 0.625, 0.375), "coord");
             out("f_x", g.calcSurfaceValue(x));
+        } else if (query == "nearest0") {
+            // degenerate query points: exactly on the cylinder axis / at the sphere centre (the gradient of the implicit
+            // function vanishes there). Any surface point at distance r is a correct answer; it must still be ON the
+            // surface, with a unit normal that is the surface normal there.
+            Real z = in("pz", 0.625, "coord");
+            Vec3 p = shape == "cylinder" ? Vec3(0, 0, z) : Vec3(0, 0, 0);
+            bool ins = false; UnitVec3 n(XAxis);
+            Vec3 np = g.findNearestPoint(p, ins, n);
+            bool fin = true;
+            for (int i = 0; i < 3; ++i) if (!symfp::is_symbolic(np[i]) && !isFinite(np[i])) fin = false;
+            symfp::note("finite", fin ? "1" : "0");
+            if (fin) {
+                outV3("np", np); outV3("n", n); out("inside", ins ? 1 : 0);
+                out("f_np", g.calcSurfaceValue(np));
+                outV3("g_np", g.calcSurfaceGradient(np));
+                out("pz_out", z);
+            }
         } else if (query == "grad") {
             Vec3 p = inV3("p", Vec3(0.5, -0.875, 1.25), "coord");
             out("f", g.calcSurfaceValue(p));
